@@ -1,6 +1,7 @@
 """
 This module is used to create a HedSchema object from a set of .tsv files.
 """
+import csv
 import io
 
 from hed.schema.schema_io import df_util, load_dataframes
@@ -274,5 +275,6 @@ def load_dataframes_from_strings(schema_data):
         schema_data(dict): A dict with the same keys as schema_data, but values are dataframes if not before
     """
     return {key: value if isinstance(value, pd.DataFrame) else pd.read_csv(io.StringIO(value), sep="\t",
-                                                                           dtype=str, na_filter=False)
+                                                                           dtype=str, na_filter=False,
+                                                                           quoting=csv.QUOTE_NONE)
             for key, value in schema_data.items()}
